@@ -108,8 +108,19 @@ pub fn gen_case(rng: &mut Rng, i: usize, ports: &Ports) -> HttpCase {
         lines.push(String::from("X-Fill: "));
     }
     let host_pos = if lines.is_empty() { 0 } else { rng.usize(0, lines.len()) };
+    // for absolute-URI targets the Host header may legitimately disagree with the URI (other port, port omitted,
+    // another name): the URI names the authority
+    let host_value = if with_host && form.starts_with("absolute") && rng.chance(0.35) {
+        match rng.below(3) {
+            0 => format!("{host_text}:{}", 1 + rng.below(60000)),
+            1 => host_text.clone(),
+            _ => format!("decoy{i}.other.test:{}", ports.p4),
+        }
+    } else {
+        authority.clone()
+    };
     if with_host {
-        lines.insert(host_pos, format!("{host_name_spelling}:{}{authority}", if rng.chance(0.8) { " " } else { "" }));
+        lines.insert(host_pos, format!("{host_name_spelling}:{}{host_value}", if rng.chance(0.8) { " " } else { "" }));
     }
     // body markers
     let end_marker = format!("<<END-{token}>>");
@@ -493,7 +504,7 @@ pub fn run(ctx: Ctx) -> Report {
 pub fn meta() -> CheckMeta {
     CheckMeta {
         level: "exploration",
-        rule: "requests generated from a grammar together with their expected outcome (no second parser): method in {CONNECT, GET, POST, PUT, DELETE, HEAD, OPTIONS, PATCH}, target form in {authority, absolute http URI, absolute https URI, origin-form + Host}, host spelled as name (fake DNS), IPv4 literal or bracketed IPv6, explicit port or scheme default (origins listen on 80 and 443 too), 0-60 header lines incl. head blocks 0-1500 bytes under the 64 KiB limit, Host header at any position and in any letter case or absent, 0-8 KiB of body/tunnel bytes in the same segment as the head plus later bytes ending in a unique marker; head delivered whole / in three pieces / dripped. Observed through the real start_http_proxy_server + Client + Server: the origin connection carrying the case's token must have arrived at exactly the named (address, port); CONNECT answered 200 and the tunnel bytes (incl. those sent with the header) arrive exactly once, in order; for other methods request line = method origin-form version, non-Host header lines identical and in order, Host present and naming the same authority (port may be omitted for 80/443), body bytes identical. Only the first request per connection. distinct_nontrivial = distinct generated requests.".into(),
+        rule: "requests generated from a grammar together with their expected outcome (no second parser): method in {CONNECT, GET, POST, PUT, DELETE, HEAD, OPTIONS, PATCH}, target form in {authority, absolute http URI, absolute https URI, origin-form + Host}, host spelled as name (fake DNS), IPv4 literal or bracketed IPv6, explicit port or scheme default (origins listen on 80 and 443 too), 0-60 header lines incl. head blocks 0-1500 bytes under the 64 KiB limit, Host header at any position and in any letter case or absent (for absolute URIs also naming another port / no port / another host than the URI, which wins), 0-8 KiB of body/tunnel bytes in the same segment as the head plus later bytes ending in a unique marker; head delivered whole / in three pieces / dripped. Observed through the real start_http_proxy_server + Client + Server: the origin connection carrying the case's token must have arrived at exactly the named (address, port); CONNECT answered 200 and the tunnel bytes (incl. those sent with the header) arrive exactly once, in order; for other methods request line = method origin-form version, non-Host header lines identical and in order, Host present and naming the same authority (port may be omitted for 80/443), body bytes identical. Only the first request per connection. distinct_nontrivial = distinct generated requests.".into(),
         assumptions: vec!["a head block above 64 KiB may be rejected (documented cap); blocks at or below it must be served".into()],
         floors: vec![("requests", 300), ("requests_seen_at_an_origin", 200), ("tunnels_to_the_named_authority", 200), ("head_near_64k", 20)],
         exhaustive: false,
